@@ -226,7 +226,7 @@ def population_case(ctx, rng, idx):
     n_dim = pm.n_parameters()
     n_last = int(rng.integers(1, 5))         # n_ids last given to the model
     leaves = GP.random_composition(rng, n_last, total_dim=n_dim,
-                                   kinds='GLTPH', p_cov=0.3, cov_kinds='GLT')
+                                   kinds='GLTPH', p_cov=0.3, cov_kinds='GLTP')
     # all individual parameters must be positive: log-normal for scales
     for i, l in enumerate(leaves):
         if l.kind == 'G':
@@ -633,21 +633,31 @@ def covariate_rows_case(ctx, rng, idx):
     k is generated for covariate row k.  Oracle: all dimensions pooled (one
     covariate-dependent), tiny noise, so that the value of every sample is
     determined by its own covariate row."""
-    which = ['posterior', 'prior'][idx % 2]
+    which = ['posterior', 'prior', 'population'][idx % 3]
+    # the covariate-dependent dimension: pooled, or a centred model with a
+    # tiny scale (its mean / log-mean depends on the covariates)
+    inner = 'PGLT'[(idx // 3) % 4]
     n = int(rng.integers(2, 7))
     n_cov = int(rng.integers(1, 3))
     pm = chi.PredictiveModel(toys.ToyMulti(1), [chi.GaussianErrorModel()])
-    pop = chi.ComposedPopulationModel([
-        chi.CovariatePopulationModel(
-            chi.PooledModel(), chi.LinearCovariateModel(n_cov=n_cov)),
-        chi.PooledModel(n_dim=3)])
+    under = {'P': chi.PooledModel, 'G': chi.GaussianModel,
+             'L': chi.LogNormalModel, 'T': chi.TruncatedGaussianModel}[
+                 inner]()
+    cpm = chi.CovariatePopulationModel(
+        under, chi.LinearCovariateModel(n_cov=n_cov))
+    if inner != 'P':
+        cpm.set_population_parameters([[0, 0]])
+    pop = chi.ComposedPopulationModel([cpm, chi.PooledModel(n_dim=3)])
     pop.set_dim_names(pm.get_parameter_names())
     ppm = chi.PopulationPredictiveModel(pm, pop)
     names = ppm.get_parameter_names()
     a0, k_, b_, sig = 2.0, 0.3, 0.4, 1e-4
-    beta = rng.uniform(5, 20, size=n_cov) * rng.choice([-1, 1], size=n_cov)
-    beta = np.abs(beta)
-    values = [a0] + list(beta) + [k_, b_, sig]
+    beta = rng.uniform(5, 20, size=n_cov)
+    if inner == 'L':
+        beta = rng.uniform(0.3, 1.0, size=n_cov)
+    base = {'P': [a0], 'G': [a0, 1e-4], 'T': [a0, 1e-4],
+            'L': [float(np.log(a0)), 1e-5]}[inner]
+    values = base + list(beta) + [k_, b_, sig]
     if len(names) != len(values):
         ctx.reject('unexpected parameter layout')
         return
@@ -655,8 +665,8 @@ def covariate_rows_case(ctx, rng, idx):
     cov_arg = cov if rng.random() < 0.5 else cov.tolist()
     times = np.array([0.5, 1.5])
     feats = {'family': 'covariate_rows', 'model': which, 'n_samples': n,
-             'n_cov': n_cov}
-    ctx.case(('covariate_rows', which, n, n_cov), True,
+             'n_cov': n_cov, 'covariate_dependent_model': inner}
+    ctx.case(('covariate_rows', which, inner, n, n_cov), True,
              sample=dict(feats, covariates=cov))
     try:
         if which == 'posterior':
@@ -666,12 +676,19 @@ def covariate_rows_case(ctx, rng, idx):
             ds = xr.Dataset(data, coords={'chain': [0, 1],
                                           'draw': [0, 1, 2]})
             model = chi.PosteriorPredictiveModel(ppm, ds)
-        else:
+        elif which == 'prior':
             model = chi.PriorPredictiveModel(ppm, pints.ComposedLogPrior(*[
                 pints.GaussianLogPrior(v, 1e-6 * max(abs(v), 1e-3))
                 for v in values]))
-        df = model.sample(times, n_samples=n, seed=int(rng.integers(1000)),
-                          covariates=cov_arg)
+        if which == 'population':
+            df = ppm.sample(values, times, n_samples=n,
+                            seed=int(rng.integers(1000)),
+                            covariates=cov_arg)
+            df = df[df['Observable'] == pm.get_output_names()[0]]
+        else:
+            df = model.sample(times, n_samples=n,
+                              seed=int(rng.integers(1000)),
+                              covariates=cov_arg)
     except Exception as e:      # noqa
         ctx.violation_exc('sample_raises', e, {'case': feats}, feats)
         return
@@ -683,16 +700,21 @@ def covariate_rows_case(ctx, rng, idx):
         return
     for j, _id in enumerate(ids):
         rows = df[df['ID'] == _id].sort_values('Time')
-        a = a0 + float(np.sum(beta * cov[j]))
+        def a_of(row):
+            lin = float(np.sum(beta * row))
+            return float(np.exp(np.log(a0) + lin)) if inner == 'L' \
+                else a0 + lin
+        a = a_of(cov[j])
         want = a * np.exp(-k_ * times) + b_ * times
         got = rows['Value'].to_numpy(dtype=float)
-        if got.shape != want.shape or np.max(np.abs(got - want)) > 0.01:
+        if got.shape != want.shape or np.max(np.abs(got - want) / (
+                1 + np.abs(want))) > 0.01:
             ctx.violation('sample_follows_its_own_covariates',
                           'covariate_row_ignored:' + which,
                           {'sample': j, 'covariates': cov[j],
                            'values': got, 'expected': want,
                            'expected_for_row_0':
-                               (a0 + float(np.sum(beta * cov[0]))) *
+                               a_of(cov[0]) *
                                np.exp(-k_ * times) + b_ * times}, feats)
             return
 
